@@ -44,13 +44,44 @@ struct target_state
 
 // record mode: log every state-word hook event that concerns a target task
 static std::atomic<void const*> g_targets[8];
+// history number a target slot belongs to: a hook event that is logged late (the logging thread was
+// descheduled between matching the target and taking the sequence number) must not be attributed to
+// the next history
+static std::atomic<int> g_target_epoch[8];
+static std::atomic<int> g_epoch{0};
+// identity of whoever executes a hooked step: the pika task (helper tasks have no harness actor id)
+// or the OS thread; small numbers handed out on first use
+static long long actor_key() noexcept
+{
+    static std::atomic<long long> next{1};
+    if (auto* td = pika::threads::detail::get_self_id_data())
+    {
+        // thread objects are recycled: the key lives in the task's thread-data slot
+        std::size_t k = td->get_thread_data();
+        if (k >= (std::size_t(1) << 40)) return (long long) (k >> 40);
+        long long n = next++;
+        td->set_thread_data((std::size_t(n) << 40) | k);
+        return n;
+    }
+    static thread_local long long mine = 0;
+    if (!mine) mine = next++;
+    return mine;
+}
 static void record_hook(char const* site, void const* obj, std::uint64_t a, std::uint64_t b) noexcept
 {
-    int idx = -1;
+    int idx = -1, e1 = 0;
     for (int i = 0; i < 8; ++i)
-        if (g_targets[i].load(std::memory_order_relaxed) == obj) idx = i;
+    {
+        int e = g_target_epoch[i].load();
+        if (obj && g_targets[i].load() == obj)
+        {
+            idx = i;
+            e1 = e;
+        }
+    }
+    if (idx >= 0 && g_target_epoch[idx].load() != e1) idx = -1;
     if (idx >= 0)
-        ev("hk").s("site", site).i("t", idx + 1).i("a", (long long) (a & 0xffffffffu)).i("ah", (long long) (a >> 32)).i("b", (long long) (b & 0xffffffffu)).i("bh", (long long) (b >> 32)).i("w", (long long) pika::get_worker_thread_num()).done();
+        ev("hk").i("ep", e1).s("site", site).i("t", idx + 1).i("a", (long long) (a & 0xffffffffu)).i("ah", (long long) (a >> 32)).i("b", (long long) (b & 0xffffffffu)).i("bh", (long long) (b >> 32)).i("w", (long long) pika::get_worker_thread_num()).i("k", actor_key()).done();
     vctl::perturb(site, obj, a, b);
 }
 
@@ -84,7 +115,13 @@ int main(int argc, char** argv)
     {
         int ntargets = 1 + (int) R.below(3);
         int rounds = 1 + (int) R.below(4);
-        ev("init").i("targets", ntargets).i("rounds", rounds).done();
+        if (record)
+        {
+            // step-level mode: one target, a fixed number of wait rounds (spec/WakeStepTrace.tla)
+            ntargets = 1;
+            rounds = 3;
+        }
+        ev("init").i("targets", ntargets).i("rounds", rounds).i("ep", ++g_epoch).done();
         std::vector<std::unique_ptr<target_state>> ts;
         for (int t = 0; t < ntargets; ++t) ts.push_back(std::make_unique<target_state>());
         std::atomic<int> finished{0};
@@ -94,7 +131,7 @@ int main(int argc, char** argv)
         for (int t = 0; t < ntargets; ++t)
         {
             target_state* S = ts[t].get();
-            int body_yields = (int) R.below(3);
+            int body_yields = record ? 0 : (int) R.below(3);
             // one waker per round; kind chosen at random
             for (int i = 1; i <= rounds; ++i)
             {
@@ -109,7 +146,7 @@ int main(int argc, char** argv)
                         {
                             auto ctx = S->reg[i];
                             S->has_reg[i] = false;
-                            ev("wake").i("t", t + 1).i("r", i).i("os", os).done();
+                            ev("wake").i("t", t + 1).i("r", i).i("os", os).i("k", record ? actor_key() : 0).done();
                             S->woken[i] = 1;
                             for (int s = 0; s < spin * 50; ++s) asm volatile("" ::: "memory");
                             ctx.resume();    // under the lock, like condition_variable::notify_one
@@ -133,6 +170,14 @@ int main(int argc, char** argv)
             ++nactors;
             ex::execute(ex::thread_pool_scheduler{}, [&, S, t, rounds, body_yields] {
                 S->tid = pika::threads::detail::get_self_id();
+                if (record)
+                {
+                    // from here on every hooked step on this task's state word is logged; the word
+                    // as the running task sees it is the initial state of the step-level trace
+                    auto st0 = pika::threads::detail::get_thread_id_data(S->tid)->get_state();
+                    ev("tstart").i("t", t + 1).i("st", (int) st0.state()).i("tag", st0.tag()).i("w", (long long) pika::get_worker_thread_num()).done();
+                }
+                g_target_epoch[t] = g_epoch.load();
                 g_targets[t] = pika::threads::detail::get_thread_id_data(S->tid);
                 for (int i = 1; i <= rounds; ++i)
                 {
@@ -141,7 +186,7 @@ int main(int argc, char** argv)
                         std::lock_guard<pika::concurrency::detail::spinlock> l(S->mtx);
                         S->reg[i] = pika::execution::this_thread::detail::agent();
                         S->has_reg[i] = true;
-                        ev("register").i("t", t + 1).i("r", i).done();
+                        ev("register").i("t", t + 1).i("r", i).i("w", (long long) pika::get_worker_thread_num()).done();
                         // a pika-task waker is created by the target itself (no task ever polls:
                         // tasks that busy-yield can starve a wake-up issued from another thread,
                         // see DESIGN.md); sometimes before, sometimes after releasing the lock
@@ -200,6 +245,7 @@ int main(int argc, char** argv)
             _exit(0);
         }
         for (auto& th : os_threads) th.join();
+        for (auto& g : g_targets) g = nullptr;
         ev("reset").done();
     }
     pika::finalize();
